@@ -55,6 +55,8 @@ def replay_rotate(ctx, rnd, st, wlo, whi, idx, pid='C15'):
     k = rnd.choice([0, 0, 2, -4, 9])
     scale = 2.0 ** k
     t = rnd.choice([0, 0, 5, -300])
+    if k == 0 and rnd.random() < 0.3:
+        t = rnd.choice([300000, -2 ** 20])        # far from the origin: the pivot is then 'close' to the centre in relative terms only
     fr = geom.Frame(U, scale, float(t), float(-2 * t), rnd.randint(0, 5))
     fr2 = geom.Frame(U * e[2], scale, fr.tx, fr.ty, 0)
     try:
@@ -143,7 +145,7 @@ def translation_checks(ctx, rnd):
     done = 0
     for i in range(n):
         U = rnd.choice([2, 4, 8])
-        kinds = ['circle', 'ellipse', 'rectangle', 'polygon', 'cannulus', 'eannulus', 'rannulus']
+        kinds = ['circle', 'ellipse', 'rectangle', 'polygon', 'cannulus', 'eannulus', 'rannulus', 'point', 'text', 'line']
         if rnd.random() < 0.8:
             s = geomgen.simple(rnd, kinds, cmax=2 * U, smax=6 * U)
         else:
@@ -155,7 +157,7 @@ def translation_checks(ctx, rnd):
         if i % 2:
             # translated in place: the same object, already used at the old position, is assigned the new parameters
             moved = geom.build(s, geom.Frame(U, 1.0, 0.0, 0.0, av))
-            _ = (moved.bounding_box, moved.to_mask(mode='center'))
+            _ = (moved.bounding_box, moved.to_mask(mode='center') if s['k'] not in ('point', 'text', 'line') else None)
             geom._assign_from(moved, b)
             b = moved
         ba, bb = a.bounding_box, b.bounding_box
@@ -166,7 +168,7 @@ def translation_checks(ctx, rnd):
             events_aligned.append({'ev': 'bbox', 'shape': s, 'U': U, 'box': [ba.ixmin, ba.ixmax, ba.iymin, ba.iymax],
                                    'exact': exact_dirs(s, av), 'extra': {'t': [tx, ty], 'boxb': [bb.ixmin, bb.ixmax, bb.iymin, bb.iymax]}})
             continue
-        modes = [('center', 1)]
+        modes = [('center', 1)] if s['k'] not in ('point', 'text', 'line') else []       # points, lines and text have a box but no mask
         if s['k'] in ('circle', 'ellipse', 'rectangle', 'polygon'):
             modes += [('subpixels', rnd.choice([2, 3, 4, 5, 7, 8, 12]))]
         if s['k'] in ('circle', 'ellipse'):
